@@ -1,8 +1,133 @@
-import ColoVerif.Model.RowLeg
+import ColoVerif.Proofs.RowLegOpt
+import ColoVerif.Model.LegacyRowLeg
+/-
+C12 — the single-row legalizer `RowLegalizer` is order-preserving, feasible,
+optimal and reports exact costs.  Property theorems only; the vocabulary
+(`Op`, `run`, `Fits`, `cells`, `pushCostSum`, `Legal`, `dispCost`) is in
+`Model/RowLegSpec.lean`, helper lemmas in `Proofs/RowLeg*.lean`.
+-/
 namespace ColoVerif.C12
 open ColoVerif.RowLeg
 
 theorem new_empty (b e : Int) : placement (State.new b e) = [] := by
   simp [placement, placementRev, State.new, runMin, cumRev]
+
+/-- **Feasibility.**  After any sequence of pushes that fit (positive width,
+`width ≤ remainingSpace()`), with cost queries interleaved anywhere,
+`getPlacement` lists the pushed cells in push order (`widths` are exactly the
+pushed widths) and the placement is `Legal`: `b ≤ x₀`, `xᵢ + wᵢ ≤ xᵢ₊₁`,
+`x_last + w_last ≤ e`. -/
+theorem rowleg_feasible (b e : Int) (hbe : b ≤ e) (ops : List Op) (hf : Fits (State.new b e) ops) :
+    widths (run (State.new b e) ops) = (cells ops).map Prod.fst ∧
+    Legal e b (widths (run (State.new b e) ops)) (placement (run (State.new b e) ops)) := by
+  have hr := run_reach b e ops [] 0 _ Reach.new hf
+  refine ⟨?_, reach_legal hr hbe⟩
+  have hi := reach_inv hr
+  simp [widths, hi.widths]
+
+/-- Feasibility, read cell by cell (no assumption on `b`, `e`): one position per
+pushed cell, in push order; each cell lies inside `[b, e - width]` and ends
+before the next one starts. -/
+theorem rowleg_feasible_pointwise (b e : Int) (ops : List Op) (hf : Fits (State.new b e) ops) :
+    (placement (run (State.new b e) ops)).length = (cells ops).length ∧
+    ∀ (i : Nat) (x w t : Int), (placement (run (State.new b e) ops))[i]? = some x →
+      (cells ops)[i]? = some (w, t) →
+      b ≤ x ∧ x + w ≤ e ∧ ∀ x', (placement (run (State.new b e) ops))[i + 1]? = some x' → x + w ≤ x' := by
+  have hr := run_reach b e ops [] 0 _ Reach.new hf
+  have := reach_pointwise hr
+  simp only [List.append_nil, List.reverse_reverse] at this
+  exact this
+
+/-- **Purity of cost queries.**  On every reachable state `getCost` leaves the
+state unchanged (popping a prefix of the sorted queue and pushing it back is the
+identity). -/
+theorem getCost_pure (b e : Int) (ops : List Op) (hf : Fits (State.new b e) ops) (w t : Int) :
+    (getCost (run (State.new b e) ops) w t).2 = run (State.new b e) ops :=
+  getCost_state _ w t (reach_inv (run_reach b e ops [] 0 _ Reach.new hf)).sorted
+
+/-- **Prediction = push.**  In every state the predicted cost is the cost `push` reports. -/
+theorem getCost_eq_push (s : State) (w t : Int) : (getCost s w t).1 = (push s w t).1 := rfl
+
+/-- Consequently cost queries can be dropped from any history. -/
+theorem run_cost_irrelevant (b e : Int) (ops : List Op) (hf : Fits (State.new b e) ops) (w t : Int) :
+    run (State.new b e) (ops ++ [Op.cost w t]) = run (State.new b e) ops := by
+  rw [run_append]
+  exact getCost_pure b e ops hf w t
+
+/-- **Optimality (flagship).**  After any sequence of pushes that fit (cost queries
+interleaved anywhere), the placement returned by `getPlacement` minimises the total
+width-weighted displacement `Σ wᵢ·|xᵢ − tᵢ|` among ALL ordered non-overlapping placements
+`ys` of the pushed cells inside the segment (`Legal e b widths ys`, integer positions). -/
+theorem rowleg_optimal (b e : Int) (ops : List Op) (hf : Fits (State.new b e) ops)
+    (ys : List Int) (hl : Legal e b ((cells ops).map Prod.fst) ys) :
+    dispCost (cells ops) (placement (run (State.new b e) ops)) ≤ dispCost (cells ops) ys := by
+  have hr := run_reach b e ops [] 0 _ Reach.new hf
+  have := reach_optimal_fwd hr ys (by simpa using hl)
+  simpa using this
+
+/-- **Exact cost sum.**  The costs reported by the pushes sum exactly to the cost of the
+returned placement — which by `rowleg_optimal` is the minimum. -/
+theorem cost_sum_exact (b e : Int) (ops : List Op) (hf : Fits (State.new b e) ops) :
+    pushCostSum (State.new b e) ops = dispCost (cells ops) (placement (run (State.new b e) ops)) := by
+  have hr := run_reach b e ops [] 0 _ Reach.new hf
+  have := reach_exact_fwd hr
+  simp only [List.append_nil, List.reverse_reverse, Int.zero_add] at this
+  exact this.symm
+
+/-- Both together: the reported costs sum to the minimum over all legal placements. -/
+theorem cost_sum_is_minimum (b e : Int) (ops : List Op) (hf : Fits (State.new b e) ops)
+    (ys : List Int) (hl : Legal e b ((cells ops).map Prod.fst) ys) :
+    pushCostSum (State.new b e) ops ≤ dispCost (cells ops) ys := by
+  rw [cost_sum_exact b e ops hf]
+  exact rowleg_optimal b e ops hf ys hl
+
+/-- Each predicted cost is the exact increase of the optimum: after a cost query, the
+predicted value plus the costs reported so far is the minimum cost of the row with the
+queried cell appended (if it fits). -/
+theorem getCost_is_marginal_optimum (b e : Int) (ops : List Op) (hf : Fits (State.new b e) ops)
+    (w t : Int) (hw : 0 < w) (hfit : w ≤ (run (State.new b e) ops).remaining)
+    (ys : List Int) (hl : Legal e b ((cells ops).map Prod.fst ++ [w]) ys) :
+    pushCostSum (State.new b e) ops + (getCost (run (State.new b e) ops) w t).1
+      ≤ dispCost (cells ops ++ [(w, t)]) ys := by
+  have hf' : Fits (State.new b e) (ops ++ [Op.push w t]) := fits_append _ _ _ hf ⟨hw, hfit, trivial⟩
+  have := cost_sum_is_minimum b e (ops ++ [Op.push w t]) hf' ys (by simpa [cells_append, cells] using hl)
+  rw [pushCostSum_append] at this
+  simpa [cells_append, cells, pushCostSum, getCost_eq_push] using this
+
+/-- `clear` brings every reachable state back to the initial one, so all theorems above
+also cover histories that contain `clear` (they apply to the part after the last `clear`). -/
+theorem clear_resets (b e : Int) (ops : List Op) (hf : Fits (State.new b e) ops) :
+    (run (State.new b e) ops).clear = State.new b e := by
+  have hi := reach_inv (run_reach b e ops [] 0 _ Reach.new hf)
+  have hb := hi.hb
+  have he := hi.he
+  generalize run (State.new b e) ops = s at hb he
+  subst hb he
+  rfl
+
+/-- **The defect of the unrepaired code (F8).**  Row `[0,4]`, pushes `(2,2)`, `(1,-3)`,
+`(1,-3)`: the pre-fix cost function reports costs summing to 16 although the
+placement it returns costs 15; the repaired function reports 15. -/
+theorem cost_sum_drifts :
+    (Legacy.pushAll (State.new 0 4) [(2, 2), (1, -3), (1, -3)]).1 = 16 ∧
+    placement (Legacy.pushAll (State.new 0 4) [(2, 2), (1, -3), (1, -3)]).2 = [0, 2, 3] ∧
+    dispCost [(2, 2), (1, -3), (1, -3)] [0, 2, 3] = 15 ∧
+    pushCostSum (State.new 0 4) [.push 2 2, .push 1 (-3), .push 1 (-3)] = 15 ∧
+    placement (run (State.new 0 4) [.push 2 2, .push 1 (-3), .push 1 (-3)]) = [0, 2, 3] := by
+  decide
+
+/-! Non-vacuity: the hypotheses are satisfiable with cells actually pushed against both ends. -/
+example : Fits (State.new 0 4) [.push 2 2, .cost 1 0, .push 1 (-3), .cost 3 7, .push 1 (-3)] := by decide
+example : placement (run (State.new 0 4) [.push 2 2, .cost 1 0, .push 1 (-3), .cost 3 7, .push 1 (-3)])
+    = [0, 2, 3] := by decide
+example : Legal 4 0 [2, 1, 1] [0, 2, 3] := by decide
+example : ¬ Legal 4 0 [2, 1, 1] [0, 1, 3] := by decide
+/-- the hypotheses of `getCost_is_marginal_optimum` are satisfiable -/
+example : (0:Int) < 1 ∧ 1 ≤ (run (State.new 0 4) [.push 2 2, .push 1 (-3)]).remaining ∧
+    Legal 4 0 ((cells [.push 2 2, .push 1 (-3)]).map Prod.fst ++ [1]) [0, 2, 3] := by decide
+/-- a competitor of `rowleg_optimal` that is legal and strictly worse than the optimum (15) -/
+example : Legal 6 0 ((cells [.push 2 2, .push 1 (-3), .push 1 (-3)]).map Prod.fst) [0, 2, 5] ∧
+    dispCost (cells [.push 2 2, .push 1 (-3), .push 1 (-3)]) [0, 2, 5] = 17 ∧
+    pushCostSum (State.new 0 6) [.push 2 2, .push 1 (-3), .push 1 (-3)] = 15 := by decide
 
 end ColoVerif.C12
